@@ -246,7 +246,7 @@ def ob_event_delivery(run, oid, which, why):
         owner, field, helper = CHANNELS[name]
         sites = []
         for d, b in prog.bodies.items():
-            if b.generated or "::tests::" in d or not d.startswith(A):
+            if b.generated or "::tests::" in d or not d.startswith((A, "<" + A)):
                 continue
             for c in b.calls():
                 if not c.args or "{closure" in c.name:
@@ -326,4 +326,39 @@ def ob_receive_cancel_safe(run, oid, why):
         o.check(not ys, "receive|batch|no-await-while-holding", "no yield is reachable after a datagram was taken out of the drained batch (it is stashed and returned synchronously)", c.span, {"yield blocks": ys[:4]})
         app = [x for x in b.calls() if x.name.endswith("::append") and x.bb in reach]
         o.check(bool(app), "receive|batch|rest-stashed", "the rest of the batch is appended to the queue on that path", c.span)
+    return o
+
+
+# ------------------------------------------------------------------------------------ fair select!
+FAIR_SELECTS = {
+    "consensus::Alpenglow::message_loop": 1,
+    "consensus::votor::Votor::voting_loop": 1,
+    "repair::Repair::repair_loop": 1,
+    "consensus::block_producer::produce_slice_payload": 1,
+    "consensus::block_producer::BlockProducer::produce_block_parent_not_ready": 1,
+    "consensus::block_producer::wait_for_first_slot": 1,
+}
+
+
+def ob_select_fair(run, oid, fns, why):
+    """the task loops multiplex several sources with tokio::select!: its default (random starting branch) keeps a source that is always ready - a flooded
+    socket - from starving the timers and the internal channels; `biased;` polls in source order"""
+    prog = run.program("lib")
+    o = run.ob(oid, "the select! loops of the node's tasks poll their branches fairly (no `biased;`)", why, floor=len(fns))
+    cnt = {}
+    for d, b in prog.bodies.items():
+        if b.generated or "::tests::" in d or not d.startswith((A, "<" + A)):
+            continue
+        n = sum(1 for c in b.calls() if c.name.endswith("thread_rng_n"))
+        if n:
+            root = K.fshort(d.split("::{closure")[0])
+            cnt[root] = cnt.get(root, 0) + n
+    for fn in fns:
+        w = FAIR_SELECTS[fn]
+        if prog.body(A + fn) is None and not prog.family(A + fn):
+            o.missing(fn)
+            continue
+        o.check(cnt.get(fn, 0) >= w, "%s|fair" % fn, "%s: %d select! with a random starting branch (reviewed: %d)" % (fn, cnt.get(fn, 0), w), "",
+                fail_what="%s: a select! is `biased;` now (%d fair select! found, reviewed %d): while its first branch stays ready the others - timeouts, internal channels - are never polled" % (
+                    fn, cnt.get(fn, 0), w))
     return o
